@@ -1685,6 +1685,41 @@ impl Context {
                 .push((Arc::new(Value::None), Instruction::PushStateOffset(offset)));
         }
     }
+    /// State cells of the arms of a branching construct (`if`, `match`) are laid out one
+    /// after another, so every call site inside an arm owns its cells. Only one arm runs, so
+    /// the cursor bookkeeping of the arms must not flow from one arm into the next: the offset
+    /// pending from the sites before the branch is materialised in the dominating block, every
+    /// arm starts from that position plus the size of the arms laid out before it, and
+    /// `finish_branch_state` pads every arm so that all of them leave the cursor right behind
+    /// the cells of the last arm. Returns `push_sum` at the branch point.
+    fn begin_branch_state(&mut self) -> u64 {
+        self.consume_and_insert_pushoffset();
+        self.get_ctxdata().push_sum
+    }
+    fn begin_arm_state(&mut self, entry_push_sum: u64, prefix: u64) {
+        let ctx = self.get_ctxdata();
+        ctx.push_sum = entry_push_sum;
+        ctx.next_state_offset = (prefix > 0).then_some(prefix);
+    }
+    /// Returns the block the arm ends in and how far the arm has moved the cursor so far.
+    fn end_arm_state(&mut self, entry_push_sum: u64) -> (usize, u64) {
+        let ctx = self.get_ctxdata();
+        ctx.next_state_offset = None;
+        (ctx.current_bb, ctx.push_sum - entry_push_sum)
+    }
+    fn finish_branch_state(&mut self, entry_push_sum: u64, total: u64, arm_ends: &[(usize, u64)]) {
+        for (bidx, advanced) in arm_ends {
+            if *advanced < total {
+                self.get_current_fn().body[*bidx].0.push((
+                    Arc::new(Value::None),
+                    Instruction::PushStateOffset(total - advanced),
+                ));
+            }
+        }
+        let ctx = self.get_ctxdata();
+        ctx.next_state_offset = None;
+        ctx.push_sum = entry_push_sum + total;
+    }
     fn emit_fncall(
         &mut self,
         idx: u64,
@@ -2963,36 +2998,28 @@ impl Context {
                 // This is just a placeholder. At this point, the locations of
                 // the block are not determined yet. These 0s will be
                 // overwritten later.
+                // the state cells of the two arms are laid out one after the other
+                let entry_push_sum = self.begin_branch_state();
                 let _ = self.push_inst(Instruction::JmpIf(c, 0, 0, 0));
-                //todo: state offset for branches
                 //insert then block
                 let then_bidx = cond_bidx + 1;
+                self.begin_arm_state(entry_push_sum, 0);
                 let (t, _, state_t) = self.eval_block(Some(*then));
+                let then_size = state_t.iter().map(|s| s.total_size()).sum::<u64>();
+                let then_end = self.end_arm_state(entry_push_sum);
                 //jmp to ret is inserted in bytecodegen
                 //insert else block
                 let else_bidx = self.get_ctxdata().current_bb + 1;
+                self.begin_arm_state(entry_push_sum, then_size);
                 let (e, _, state_e) = self.eval_block(*else_);
-                let then_size = state_t.iter().map(|s| s.total_size()).sum::<u64>();
                 let else_size = state_e.iter().map(|s| s.total_size()).sum::<u64>();
-                let branch_state = match then_size.cmp(&else_size) {
-                    std::cmp::Ordering::Greater => {
-                        let elseb = self.get_current_fn().body.get_mut(else_bidx).unwrap();
-                        elseb.0.push((
-                            Arc::new(Value::None),
-                            Instruction::PushStateOffset(then_size - else_size),
-                        ));
-                        state_t.clone()
-                    }
-                    std::cmp::Ordering::Less => {
-                        let thenb = self.get_current_fn().body.get_mut(then_bidx).unwrap();
-                        thenb.0.push((
-                            Arc::new(Value::None),
-                            Instruction::PushStateOffset(else_size - then_size),
-                        ));
-                        state_e.clone()
-                    }
-                    std::cmp::Ordering::Equal => state_t.clone(),
-                };
+                let else_end = self.end_arm_state(entry_push_sum);
+                self.finish_branch_state(
+                    entry_push_sum,
+                    then_size + else_size,
+                    &[then_end, else_end],
+                );
+                let branch_state = [state_t, state_e].concat();
                 //insert return block
                 self.add_new_basicblock();
                 let res = self.push_inst(Instruction::Phi(t, e));
@@ -3427,6 +3454,11 @@ impl Context {
         // Record current block where Switch will be placed
         let switch_bidx = self.get_ctxdata().current_bb;
 
+        // The state cells of the arms are laid out one after another (see `begin_branch_state`)
+        let entry_push_sum = self.begin_branch_state();
+        let mut arm_prefix = 0u64;
+        let mut arm_ends = vec![];
+
         // Placeholder Switch instruction on the tag - will be updated later
         let _ = self.push_inst(Instruction::Switch {
             scrutinee: tag_val.clone(),
@@ -3442,10 +3474,7 @@ impl Context {
                 self.add_new_basicblock();
                 let block_idx = self.get_ctxdata().current_bb as u64;
 
-                // Reset state offset at the start of each arm
-                // This ensures each arm starts with a clean state context
-                self.get_ctxdata().next_state_offset = None;
-                self.get_ctxdata().push_sum = 0;
+                self.begin_arm_state(entry_push_sum, arm_prefix);
 
                 // Extract value from the tagged union if there's a binding pattern and payload type
                 if let MatchPattern::Constructor(_, Some(inner_pattern)) = &arm.pattern
@@ -3463,6 +3492,8 @@ impl Context {
                 }
 
                 let (result_val, _, arm_states) = self.eval_expr(arm.body);
+                arm_prefix += arm_states.iter().map(|s| s.total_size()).sum::<u64>();
+                arm_ends.push(self.end_arm_state(entry_push_sum));
                 ((*tag, block_idx), result_val, arm_states)
             })
             .fold(
@@ -3484,11 +3515,10 @@ impl Context {
             self.add_new_basicblock();
             let block_idx = self.get_ctxdata().current_bb as u64;
 
-            // Reset state offset for default arm
-            self.get_ctxdata().next_state_offset = None;
-            self.get_ctxdata().push_sum = 0;
-
+            self.begin_arm_state(entry_push_sum, arm_prefix);
             let (result_val, _, arm_states) = self.eval_expr(arm.body);
+            arm_prefix += arm_states.iter().map(|s| s.total_size()).sum::<u64>();
+            arm_ends.push(self.end_arm_state(entry_push_sum));
             all_arm_states.push(arm_states);
             case_results.push(result_val);
             Some(block_idx)
@@ -3497,47 +3527,8 @@ impl Context {
             None
         };
 
-        // Calculate maximum state size across all arms
-        let arm_state_sizes: Vec<u64> = all_arm_states
-            .iter()
-            .map(|states| states.iter().map(|s| s.total_size()).sum::<u64>())
-            .collect();
-        let max_state_size = arm_state_sizes.iter().copied().max().unwrap_or(0);
-
-        // Insert PushStateOffset for arms with smaller state sizes
-        // This ensures all arms have the same state offset when merging
-        for (i, ((_tag, block_idx), state_size)) in
-            case_blocks.iter().zip(arm_state_sizes.iter()).enumerate()
-        {
-            if *state_size < max_state_size {
-                let offset = max_state_size - state_size;
-                let block = self
-                    .get_current_fn()
-                    .body
-                    .get_mut(*block_idx as usize)
-                    .unwrap();
-                // Insert PushStateOffset at the end of the block (before result)
-                block
-                    .0
-                    .push((Arc::new(Value::None), Instruction::PushStateOffset(offset)));
-            }
-        }
-
-        // Handle default block state adjustment if it exists
-        if let Some(default_idx) = default_block_idx {
-            let default_state_size = arm_state_sizes.last().copied().unwrap_or(0);
-            if default_state_size < max_state_size {
-                let offset = max_state_size - default_state_size;
-                let block = self
-                    .get_current_fn()
-                    .body
-                    .get_mut(default_idx as usize)
-                    .unwrap();
-                block
-                    .0
-                    .push((Arc::new(Value::None), Instruction::PushStateOffset(offset)));
-            }
-        }
+        // Every arm leaves the state cursor right behind the cells of the last arm
+        self.finish_branch_state(entry_push_sum, arm_prefix, &arm_ends);
 
         // Generate merge block with PhiSwitch
         self.add_new_basicblock();
@@ -3568,9 +3559,7 @@ impl Context {
             _ => panic!("expected Switch instruction"),
         }
 
-        // Use the largest arm's state as the result state
-        // This represents the maximum state size across all branches
-        // But we need to collect all states from all arms for the function's state signature
+        // The state signature lists the cells of all arms in order
         for arm_states in all_arm_states {
             states.extend(arm_states);
         }
@@ -3637,6 +3626,11 @@ impl Context {
         // Record current block where Switch will be placed
         let switch_bidx = self.get_ctxdata().current_bb;
 
+        // The state cells of the arms are laid out one after another (see `begin_branch_state`)
+        let entry_push_sum = self.begin_branch_state();
+        let mut arm_prefix = 0u64;
+        let mut arm_ends = vec![];
+
         // Placeholder Switch instruction - will be updated later
         let _ = self.push_inst(Instruction::Switch {
             scrutinee: scrut_val.clone(),
@@ -3651,7 +3645,10 @@ impl Context {
             .map(|(arm, lit_val)| {
                 self.add_new_basicblock();
                 let block_idx = self.get_ctxdata().current_bb as u64;
+                self.begin_arm_state(entry_push_sum, arm_prefix);
                 let (result_val, _, arm_states) = self.eval_expr(arm.body);
+                arm_prefix += arm_states.iter().map(|s| s.total_size()).sum::<u64>();
+                arm_ends.push(self.end_arm_state(entry_push_sum));
                 ((*lit_val, block_idx), result_val, arm_states)
             })
             .fold(
@@ -3672,7 +3669,10 @@ impl Context {
             // Wildcard pattern - just evaluate the body
             self.add_new_basicblock();
             let block_idx = self.get_ctxdata().current_bb as u64;
+            self.begin_arm_state(entry_push_sum, arm_prefix);
             let (result_val, _, arm_states) = self.eval_expr(arm.body);
+            arm_prefix += arm_states.iter().map(|s| s.total_size()).sum::<u64>();
+            arm_ends.push(self.end_arm_state(entry_push_sum));
             all_states.extend(arm_states);
             case_results.push(result_val);
             Some(block_idx)
@@ -3680,6 +3680,8 @@ impl Context {
             // Exhaustive match - no default block needed
             None
         };
+        // Every arm leaves the state cursor right behind the cells of the last arm
+        self.finish_branch_state(entry_push_sum, arm_prefix, &arm_ends);
 
         // Generate merge block with PhiSwitch
         self.add_new_basicblock();
